@@ -1,0 +1,73 @@
+// Verification hooks for PGM-index. Compiled only when PGM_INDEX_VERIF is defined; with the guard off this
+// header is empty and no other header refers to it. The hooks only *observe*: they record the constraint
+// points handed to the segmentation builder and the per-level routing decisions of a search, and they declare
+// an accessor struct (defined by the verification harness) that is befriended by a few classes.
+#pragma once
+
+#ifdef PGM_INDEX_VERIF
+
+#include <cstddef>
+#include <mutex>
+#include <utility>
+#include <vector>
+
+namespace pgm::verif {
+
+/// Defined by the verification harness; befriended (under the guard) by the classes whose private state it reads.
+struct Access;
+
+/// The constraint points one call of make_segmentation committed to.
+template<typename K>
+struct SegSession {
+    size_t n, start, end, epsilon;
+    std::vector<std::pair<K, size_t>> points;
+};
+
+/// Where finished sessions go. The harness sets sink; nullptr (the default) disables recording.
+template<typename K>
+struct SegLog {
+    static inline std::mutex mutex;
+    static inline std::vector<SegSession<K>> *sink = nullptr;
+};
+
+template<typename K>
+struct SegSessionGuard {
+    SegSession<K> session;
+    bool active;
+
+    SegSessionGuard(size_t n, size_t start, size_t end, size_t epsilon)
+        : session{n, start, end, epsilon, {}}, active(SegLog<K>::sink != nullptr) {}
+
+    void point(const K &x, size_t y) {
+        if (active)
+            session.points.emplace_back(x, y);
+    }
+
+    ~SegSessionGuard() {
+        if (!active)
+            return;
+        std::lock_guard<std::mutex> lock(SegLog<K>::mutex);
+        if (SegLog<K>::sink)
+            SegLog<K>::sink->push_back(std::move(session));
+    }
+};
+
+/// One level of the top-down routing performed by PGMIndex::segment_for_key.
+struct RouteEvent {
+    int level;          ///< level whose segment is being selected (0 = bottom)
+    size_t predicted;   ///< position predicted by the level above
+    size_t first;       ///< index (inside the level) of the first segment inspected
+    size_t chosen;      ///< index (inside the level) of the segment selected
+    size_t level_size;  ///< number of entries of the level in segments[] (sentinels included)
+};
+
+inline thread_local std::vector<RouteEvent> *route_sink = nullptr;
+
+inline void route_event(int level, size_t predicted, size_t first, size_t chosen, size_t level_size) {
+    if (route_sink)
+        route_sink->push_back({level, predicted, first, chosen, level_size});
+}
+
+} // namespace pgm::verif
+
+#endif // PGM_INDEX_VERIF
